@@ -36,6 +36,7 @@ type seqRunner struct {
 	expEvictions, expEvictW uint64
 	prevStats               [6]uint64
 	probe                   bool
+	windowMax0              uint64
 }
 
 func newSeqRunner(cfg CacheCfg) *seqRunner {
@@ -44,6 +45,7 @@ func newSeqRunner(cfg CacheCfg) *seqRunner {
 	s.r = NewRig(cfg, nil)
 	s.m = NewModel(cfg)
 	s.deferred = cfg.Executor == "deferred"
+	s.windowMax0 = s.r.C.VerifSnapshot().WindowMax
 	return s
 }
 
@@ -76,6 +78,9 @@ func opKey(op string) (int, bool) {
 
 // apply runs one op on cache and model and evaluates every oracle.
 func (s *seqRunner) apply(op string) OpResult {
+	if s.cfg.SampleSize > 0 {
+		s.r.C.VerifSetSampleSize(s.cfg.SampleSize)
+	}
 	r, m := s.r, s.m
 	name := opName(op)
 	k, hasKey := opKey(op)
@@ -742,6 +747,73 @@ func (s *seqRunner) stateKey() string {
 
 func (s *seqRunner) close() { s.r.Close() }
 
+// auditState (C05): in the quiescent state reached, the derived views agree with the contents.
+func (s *seqRunner) auditState(ops []string) {
+	c := s.r.C
+	for _, f := range c.VerifAudit() {
+		s.fail(f.Kind, f.Subject, "after %v: %s", ops, f.Detail)
+	}
+	s.counters["states-audited"]++
+	if snap := c.VerifSnapshot(); snap.WindowMax > s.windowMax0 {
+		s.counters["window-grew"]++
+	} else if snap.WindowMax < s.windowMax0 {
+		s.counters["window-shrank"]++
+	}
+	present := map[int]int{}
+	var sum uint64
+	for _, n := range c.VerifRawTable() {
+		present[n.Key] = n.Value
+		sum += uint64(valWeightCfg(s.cfg, n.Value))
+	}
+	bounded := s.cfg.MaxSize > 0 || s.cfg.MaxWeight > 0
+	if s.cfg.MaxWeight > 0 {
+		if ws := c.WeightedSize(); ws != sum {
+			s.fail("weighted-size-mismatch", "WeightedSize", "after %v: WeightedSize()=%d but the entries present weigh %d", ops, ws, sum)
+		}
+	}
+	if bounded {
+		for name, it := range map[string]func(func(otter.Entry[int, int]) bool){"Hottest": c.Hottest(), "Coldest": c.Coldest()} {
+			seen := map[int]int{}
+			n := 0
+			for e := range it {
+				n++
+				if n > 10000 {
+					s.fail("order-corrupt", name, "after %v: %s does not terminate", ops, name)
+					break
+				}
+				seen[e.Key]++
+				if v, ok := present[e.Key]; !ok || v != e.Value {
+					if ent, vis := c.GetEntryQuietly(e.Key); !vis || ent.Value != e.Value {
+						s.fail("order-phantom", name, "after %v: %s yields %d=%d which is not present", ops, name, e.Key, e.Value)
+					}
+				}
+			}
+			for k, cnt := range seen {
+				if cnt > 1 {
+					s.fail("order-duplicate", name, "after %v: %s yields key %d %d times", ops, name, k, cnt)
+				}
+			}
+			for k := range present {
+				if _, vis := c.GetEntryQuietly(k); vis && seen[k] == 0 {
+					s.fail("order-missing", name, "after %v: %s omits the present key %d", ops, name, k)
+				}
+			}
+		}
+	}
+	for k := range present {
+		if _, vis := c.GetEntryQuietly(k); !vis {
+			return // an expired entry awaits its sweep: the size estimate legitimately counts it
+		}
+	}
+	n := 0
+	for range c.All() {
+		n++
+	}
+	if es := c.EstimatedSize(); es != n {
+		s.fail("size-mismatch", "EstimatedSize", "after %v: EstimatedSize()=%d but iteration yields %d entries", ops, es, n)
+	}
+}
+
 func hash128(s string) [2]uint64 {
 	h1, h2 := uint64(14695981039346656037), uint64(0x9e3779b97f4a7c15)
 	for i := 0; i < len(s); i++ {
@@ -782,6 +854,7 @@ type seqParams struct {
 	Kinds    []string       `json:"kinds,omitempty"`    // discrepancy kinds that count for this property (empty = all)
 	Stats    bool           `json:"stats,omitempty"`
 	Probe    bool           `json:"probe,omitempty"`
+	Audit    bool           `json:"audit,omitempty"` // run the bookkeeping audit (C05) in every reached state
 	Persist  *persistParams `json:"persist,omitempty"`
 }
 
@@ -840,6 +913,11 @@ func seqExplore(res *Result, raw json.RawMessage, job *Job) {
 				}
 			}
 		}()
+		key := hash128(s.stateKey()) // before the audit: its queries may run maintenance
+		if p.Audit && !s.deferred && len(s.disc) == 0 {
+			s.step = len(ops) - 1
+			s.auditState(ops)
+		}
 		res.Executions++
 		res.Steps += int64(len(ops))
 		for k, v := range s.counters {
@@ -863,7 +941,6 @@ func seqExplore(res *Result, raw json.RawMessage, job *Job) {
 		if len(res.Samples) < 3 && (res.Executions == 5 || res.Executions == 500 || res.Executions == 5000) {
 			res.Samples = append(res.Samples, map[string]any{"cfg": p.Cfg.String(), "ops": ops, "last_result": obs})
 		}
-		key := hash128(s.stateKey())
 		if p.Persist != nil && !bad {
 			if _, dup := seen[key]; !dup {
 				s.step = len(ops)
